@@ -1,4 +1,8 @@
 import SynapModel.Train
+import Proofs.TrainMetrics
+import Mathlib.Algebra.Order.Field.Rat
+import Mathlib.Algebra.Order.Field.Basic
+import Mathlib.Tactic.Linarith
 /-!
 # C20 — Trainer.fit performs one optimisation step per batch in the right mode
 
@@ -228,5 +232,379 @@ theorem test_trace (tr0 g0 : Bool) (n : Nat) :
   simp [countStep, List.count_append, List.count_replicate]
 
 example : (test ⟨true, false, []⟩ 2).trace = [.setEval, .noGradEnter, .forward false false, .forward false false, .noGradExit] := by decide
+
+/-! ## The VALUES in the history, and the Evaluator as a state machine
+
+Model: `SynapModel/TrainMetrics.lean` (`evStep` / `evCompute` / `evReset`, `fitHist`); lemmas:
+`Proofs/TrainMetrics.lean`.  Scores are integers on a common positive `scale` (output = score / scale),
+losses are exact rationals. -/
+
+/-! ### decoding rules, stated outright -/
+
+/-- **binary**: the prediction is 1 exactly when the output exceeds one half -/
+theorem decode_binary (scale : Nat) (hs : 0 < scale) (s : Sample) :
+    decodePred .binary scale s = if ((s.score.headD 0 : Int) : Rat) / ((scale : Nat) : Rat) > 1 / 2 then 1 else 0 := by
+  have hsq : (0 : Rat) < (scale : Rat) := by exact_mod_cast hs
+  have key : (((s.score.headD 0 : Int) : Rat) / ((scale : Nat) : Rat) > 1 / 2) ↔ (2 * s.score.headD 0 > (scale : Int)) := by
+    rw [gt_iff_lt, lt_div_iff₀ hsq]
+    constructor
+    · intro h
+      have h2 : ((scale : Nat) : Rat) < 2 * ((s.score.headD 0 : Int) : Rat) := by linarith
+      have h3 : (((scale : Nat) : Int) : Rat) < ((2 * s.score.headD 0 : Int) : Rat) := by push_cast; exact h2
+      exact_mod_cast h3
+    · intro h
+      have h3 : (((scale : Nat) : Int) : Rat) < ((2 * s.score.headD 0 : Int) : Rat) := by exact_mod_cast h
+      have h2 : ((scale : Nat) : Rat) < 2 * ((s.score.headD 0 : Int) : Rat) := by push_cast at h3; exact h3
+      linarith
+  unfold decodePred
+  by_cases h : 2 * s.score.headD 0 > (scale : Int)
+  · simp only [h, ↓reduceIte]; rw [if_pos (key.mpr h)]
+  · simp only [h, ↓reduceIte]; rw [if_neg (fun hc => h (key.mp hc))]
+
+/-- **multi-class / categorical**: the prediction is the first index of the row maximum — the row splits as
+    `l ++ m :: r`, the prediction is `|l|`, every earlier score is strictly smaller, no later one is larger -/
+theorem decode_argmax (mode : Mode) (hm : mode ≠ .binary) (scale : Nat) (s : Sample) (h : s.score ≠ []) :
+    ∃ l m r, s.score = l ++ m :: r ∧ decodePred mode scale s = (l.length : Int) ∧ (∀ a ∈ l, a < m) ∧ (∀ a ∈ r, a ≤ m) := by
+  obtain ⟨l, m, r, e1, e2, e3, e4⟩ := argmax_split s.score h
+  refine ⟨l, m, r, e1, ?_, e3, e4⟩
+  cases mode with
+  | binary => exact absurd rfl hm
+  | multiClass => simp [decodePred, e2]
+  | categorical => simp [decodePred, e2]
+
+/-- the label is taken as given (binary, multi-class) or is the first index of the maximum of the one-hot row (categorical) -/
+theorem decode_label (s : Sample) :
+    decodeTrue .binary s = s.label.headD 0 ∧ decodeTrue .multiClass s = s.label.headD 0 ∧
+    (s.label ≠ [] → ∃ l m r, s.label = l ++ m :: r ∧ decodeTrue .categorical s = (l.length : Int) ∧
+        (∀ a ∈ l, a < m) ∧ (∀ a ∈ r, a ≤ m)) := by
+  refine ⟨rfl, rfl, fun h => ?_⟩
+  obtain ⟨l, m, r, e1, e2, e3, e4⟩ := argmax_split s.label h
+  exact ⟨l, m, r, e1, by simp [decodeTrue, e2], e3, e4⟩
+
+/-- the `int16` buffers store every value of the `int16` range unchanged -/
+theorem wrap16_id (x : Int) (h1 : -32768 ≤ x) (h2 : x < 32768) : wrap16 x = x := by
+  unfold wrap16; omega
+
+/-- `correctCount` is the number of samples whose decoded (int16) label equals the decoded (int16) prediction -/
+theorem correctCount_def (cfg : EvCfg) (ss : List Sample) :
+    correctCount cfg ss = (ss.filter (fun s =>
+      decide (wrap16 (decodeTrue cfg.mode s) = wrap16 (decodePred cfg.mode cfg.scale s)))).length ∧
+    correctCount cfg ss ≤ ss.length := ⟨rfl, List.length_filter_le _ _⟩
+
+/-- with labels and class indices inside the `int16` range, "correct" is plain equality of the decoded label and
+    the decoded prediction -/
+theorem correct_of_int16_range (cfg : EvCfg) (s : Sample)
+    (ht : -32768 ≤ decodeTrue cfg.mode s ∧ decodeTrue cfg.mode s < 32768)
+    (hp : -32768 ≤ decodePred cfg.mode cfg.scale s ∧ decodePred cfg.mode cfg.scale s < 32768) :
+    correct cfg s = decide (decodeTrue cfg.mode s = decodePred cfg.mode cfg.scale s) := by
+  unfold correct
+  rw [wrap16_id _ ht.1 ht.2, wrap16_id _ hp.1 hp.2]
+
+/-- quirk: outside it the stored values wrap — label 65539 is "equal" to prediction 3 -/
+example : correct { accuracy := true, mode := .multiClass, scale := 1, epochCb := none, stepCb := none } ⟨[65539], [0, 1, 2, 3]⟩ = true := by decide
+
+/-! ### the Evaluator -/
+
+/-- the metric list `compute(prefix)` returns on buffers holding the samples `ss` -/
+def computeOn (cfg : EvCfg) (pre : Option String) (ss : List Sample) : List Metric :=
+  prefixed pre ((if cfg.accuracy then [("accuracy", MVal.frac (correctCount cfg ss) ss.length)] else []) ++
+    (match cfg.epochCb with
+     | none => []
+     | some f => f (batchTrue cfg ss) (batchPred cfg ss)))
+
+/-- **The evaluator accumulates.**  After `reset` / `compute` the buffers are empty; after any sequence of
+    (admissible) `step`s from there they hold the decoded labels and predictions of all the samples of all those
+    batches, in order; `compute` then returns the accuracy pair (number of samples whose decoded label equals the
+    decoded prediction, number of samples) over their concatenation — followed by the epoch callback's metrics on
+    the same concatenation, all prefixed — and empties the buffers; a `compute` on empty buffers reports
+    `frac 0 0`, i.e. NumPy's `0 / 0 = nan` (`toRat? = none`): it does not raise and it is no number. -/
+theorem evaluator_accumulates (cfg : EvCfg) (pre pre' : Option String) (st0 : EvState) (bs : List (List Sample))
+    (hok : ∀ b ∈ bs, stepOk cfg.mode b = true) :
+    (evCompute cfg st0 pre').1 = EvState.empty ∧ evReset st0 = EvState.empty ∧
+    evSteps cfg pre EvState.empty bs = some ⟨batchTrue cfg bs.flatten, batchPred cfg bs.flatten⟩ ∧
+    evCompute cfg ⟨batchTrue cfg bs.flatten, batchPred cfg bs.flatten⟩ pre' = (EvState.empty, computeOn cfg pre' bs.flatten) ∧
+    evCompute cfg EvState.empty pre' = (EvState.empty, computeOn cfg pre' []) ∧
+    (cfg.accuracy = true → cfg.epochCb = none → computeOn cfg none [] = [("accuracy", MVal.frac 0 0)]) ∧
+    (MVal.frac 0 0).toRat? = none := by
+  refine ⟨rfl, rfl, ?_, ?_, ?_, ?_, rfl⟩
+  · have := evSteps_ok cfg pre bs EvState.empty hok
+    simpa [EvState.empty] using this
+  · simp only [evCompute, evReset, computeMetrics, basicAccuracy, computeOn, countEq_batch, batchTrue_length]
+    rfl
+  · simp [evCompute, evReset, computeMetrics, basicAccuracy, computeOn, EvState.empty, countEq, correctCount, batchTrue, batchPred]
+    rfl
+  · intro ha hc
+    simp [computeOn, ha, hc, prefixed, correctCount]
+
+/-- a batch the evaluator cannot take (one sample; or one score column in an arg-max mode): `step` raises and
+    the buffers are untouched (the model returns no new state) -/
+theorem evaluator_rejects (cfg : EvCfg) (st : EvState) (pre : Option String) (b : List Sample)
+    (h : stepOk cfg.mode b = false) : evStep cfg st pre b = none := by
+  simp [evStep, h]
+
+/-- batches of one sample are never admissible -/
+theorem stepOk_singleton (mode : Mode) (s : Sample) : stepOk mode [s] = false := by
+  simp [stepOk]
+
+/-- **Batching invariance** (evaluator level): two admissible groupings of the same samples give the same
+    `compute` result — every metric, the callback's included. -/
+theorem accuracy_batching_invariant (cfg : EvCfg) (pre pre' : Option String) (bs bs' : List (List Sample))
+    (hflat : bs.flatten = bs'.flatten)
+    (hok : ∀ b ∈ bs, stepOk cfg.mode b = true) (hok' : ∀ b ∈ bs', stepOk cfg.mode b = true) :
+    (evSteps cfg pre EvState.empty bs).map (fun st => evCompute cfg st pre')
+      = (evSteps cfg pre EvState.empty bs').map (fun st => evCompute cfg st pre') := by
+  rw [evSteps_ok cfg pre bs EvState.empty hok, evSteps_ok cfg pre bs' EvState.empty hok', hflat]
+
+/-! ### the history of `fit` -/
+
+/-- every epoch's metric names are pairwise different (no callback metric is called like another metric
+    of the epoch: "loss", "accuracy", "val_loss", …) -/
+def KeysOk (ev : Option EvCfg) (hasVal : Bool) (ds : List EpochData) : Prop :=
+  ∀ d ∈ ds, ((epochSpec ev hasVal d).map Prod.fst).Nodup
+
+theorem flatMap_singleton {α β : Type} (l : List α) (g : α → List β) (f : α → β) (h : ∀ a ∈ l, g a = [f a]) :
+    l.flatMap g = l.map f := by
+  induction l with
+  | nil => rfl
+  | cons a l ih =>
+    rw [List.flatMap_cons, h a (by simp), ih (fun a' ha' => h a' (by simp [ha']))]
+    rfl
+
+/-- the list stored under `k` holds, per epoch, the value `f d` — as soon as `k` names exactly that metric in every epoch -/
+theorem hist_column {ev : Option EvCfg} {hasVal : Bool} {ds : List EpochData} {st : EvState} {H : Hist}
+    (hfit : fitHist ev hasVal EvState.empty ds = some (st, H)) (k : String) (f : EpochData → MVal)
+    (hk : ∀ d ∈ ds, valuesNamed k (epochSpec ev hasVal d) = [f d]) : histGet H k = ds.map f := by
+  obtain ⟨_, h2, _, _⟩ := fitV_spec ev hasVal ds [] H st hfit
+  rw [h2 k, flatMap_singleton ds _ f hk]
+  simp [histGet]
+
+/-- **The reported epoch loss is the mean of the per-batch losses**, for the training loss of every epoch and
+    (with a validation loader) the validation loss of every epoch; the mean is a genuine quotient: `fit` does
+    not return at all on a loader without batches. -/
+theorem epoch_loss_is_mean {ev : Option EvCfg} {hasVal : Bool} {ds : List EpochData} {st : EvState} {H : Hist}
+    (hfit : fitHist ev hasVal EvState.empty ds = some (st, H)) (hkeys : KeysOk ev hasVal ds) :
+    histGet H "loss" = ds.map (fun d => MVal.num ((d.train.map (·.loss)).sum / (d.train.length : Rat))) ∧
+    (hasVal = true → histGet H "val_loss" = ds.map (fun d => MVal.num ((d.val.map (·.loss)).sum / (d.val.length : Rat)))) ∧
+    (∀ d ∈ ds, d.train.length ≠ 0 ∧ (hasVal = true → d.val.length ≠ 0)) := by
+  refine ⟨?_, ?_, ?_⟩
+  · apply hist_column hfit
+    intro d hd
+    apply valuesNamed_of_nodup _ _ _ (hkeys d hd)
+    simp [epochSpec, specMetrics, meanLoss, lossSum]
+  · intro hv
+    apply hist_column hfit
+    intro d hd
+    apply valuesNamed_of_nodup _ _ _ (hkeys d hd)
+    simp [epochSpec, specMetrics, meanLoss, lossSum, hv]
+  · obtain ⟨_, _, _, h4⟩ := fitV_spec ev hasVal ds [] H st hfit
+    intro d hd
+    obtain ⟨a, b⟩ := h4 d hd
+    exact ⟨by simpa using a, fun hv => by simpa using b hv⟩
+
+/-- **Accuracy is the fraction of correct predictions over the whole epoch**: the pair stored for epoch `d` is
+    (number of samples of ALL its batches whose decoded label equals the decoded prediction, number of those
+    samples) — not a mean of per-batch accuracies; likewise `val_accuracy` over the validation batches.
+    (Decoding: `decode_binary`, `decode_argmax`, `decode_label`.) -/
+theorem accuracy_is_fraction_correct {cfg : EvCfg} {hasVal : Bool} {ds : List EpochData} {st : EvState} {H : Hist}
+    (hacc : cfg.accuracy = true)
+    (hfit : fitHist (some cfg) hasVal EvState.empty ds = some (st, H)) (hkeys : KeysOk (some cfg) hasVal ds) :
+    histGet H "accuracy" = ds.map (fun d => MVal.frac (correctCount cfg (samplesOf d.train)) (samplesOf d.train).length) ∧
+    (hasVal = true → histGet H "val_accuracy" =
+      ds.map (fun d => MVal.frac (correctCount cfg (samplesOf d.val)) (samplesOf d.val).length)) := by
+  refine ⟨?_, ?_⟩
+  · apply hist_column hfit
+    intro d hd
+    apply valuesNamed_of_nodup _ _ _ (hkeys d hd)
+    simp [epochSpec, specMetrics, computeMetrics, basicAccuracy, hacc, prefixed, stAfter, EvState.empty, countEq_batch]
+  · intro hv
+    apply hist_column hfit
+    intro d hd
+    apply valuesNamed_of_nodup _ _ _ (hkeys d hd)
+    simp [epochSpec, specMetrics, computeMetrics, basicAccuracy, hacc, prefixed, stAfter, EvState.empty, countEq_batch, hv]
+
+/-- **Batching invariance** (history level): two runs whose epochs contain the same training samples, grouped into
+    batches in any two ways, report the same accuracy for every epoch. -/
+theorem accuracy_batching_invariant_fit {cfg : EvCfg} {hasVal : Bool} {ds ds' : List EpochData} {st st' : EvState} {H H' : Hist}
+    (hacc : cfg.accuracy = true)
+    (hfit : fitHist (some cfg) hasVal EvState.empty ds = some (st, H)) (hkeys : KeysOk (some cfg) hasVal ds)
+    (hfit' : fitHist (some cfg) hasVal EvState.empty ds' = some (st', H')) (hkeys' : KeysOk (some cfg) hasVal ds')
+    (hsame : ds.map (fun d => samplesOf d.train) = ds'.map (fun d => samplesOf d.train)) :
+    histGet H "accuracy" = histGet H' "accuracy" := by
+  rw [(accuracy_is_fraction_correct hacc hfit hkeys).1, (accuracy_is_fraction_correct hacc hfit' hkeys').1]
+  have e : ∀ l : List EpochData, l.map (fun d => MVal.frac (correctCount cfg (samplesOf d.train)) (samplesOf d.train).length)
+      = (l.map (fun d => samplesOf d.train)).map (fun ss => MVal.frac (correctCount cfg ss) ss.length) := by
+    intro l; simp
+  rw [e ds, e ds', hsame]
+
+/-- the callback (if any) always returns metrics with the names `names`, in that order -/
+def CbNames (cb : Option Callback) (names : List String) : Prop :=
+  match cb with
+  | none => names = []
+  | some f => ∀ yt yp, (f yt yp).map Prod.fst = names
+
+/-- metric names the evaluator contributes to an epoch -/
+def evKeys (ev : Option EvCfg) (names : List String) : List String :=
+  match ev with
+  | none => []
+  | some cfg => (if cfg.accuracy then ["accuracy"] else []) ++ names
+
+/-- the keys of the history: the loss, accuracy (if enabled), the epoch callback's metrics; then the same with `val_` -/
+def epochKeys (ev : Option EvCfg) (names : List String) (hasVal : Bool) : List String :=
+  ["loss"] ++ evKeys ev names ++
+    (if hasVal then ["val_loss"] ++ (evKeys ev names).map (fun m => "val" ++ "_" ++ m) else [])
+
+theorem epochSpec_keys (ev : Option EvCfg) (names : List String) (hasVal : Bool) (d : EpochData)
+    (hn : match ev with | none => True | some cfg => CbNames cfg.epochCb names) :
+    (epochSpec ev hasVal d).map Prod.fst = epochKeys ev names hasVal := by
+  cases ev with
+  | none => cases hasVal <;> simp [epochSpec, specMetrics, epochKeys, evKeys]
+  | some cfg =>
+    cases hcb : cfg.epochCb with
+    | none =>
+      simp only [hcb, CbNames] at hn
+      subst hn
+      cases hasVal <;> cases ha : cfg.accuracy <;>
+        simp [epochSpec, specMetrics, epochKeys, evKeys, computeMetrics, basicAccuracy, prefixed, hcb, ha]
+    | some f =>
+      simp only [hcb, CbNames] at hn
+      have hmap : ∀ yt yp, List.map (fun x : Metric => "val_" ++ x.1) (f yt yp) = List.map (fun m => "val_" ++ m) names := by
+        intro yt yp; rw [← hn yt yp, List.map_map]; rfl
+      cases hasVal <;> cases ha : cfg.accuracy <;>
+        simp [epochSpec, specMetrics, epochKeys, evKeys, computeMetrics, basicAccuracy, prefixed, hcb, ha, hn,
+          List.map_map, Function.comp_def, hmap]
+
+theorem foldl_addKeys_const (K : List String) (hK : K.Nodup) (n : List Unit) :
+    n.foldl (fun ks _ => addKeys ks K) [] = if n = [] then [] else K := by
+  cases n with
+  | nil => rfl
+  | cons _ n =>
+    simp only [List.foldl_cons]
+    rw [addKeys_fresh K [] (by simpa using hK)]
+    simp only [List.nil_append]
+    have : ∀ n : List Unit, n.foldl (fun ks _ => addKeys ks K) K = K := by
+      intro n
+      induction n with
+      | nil => rfl
+      | cons _ n ih => simp only [List.foldl_cons]; rw [addKeys_known K K (fun _ h => h)]; exact ih
+    simp [this]
+
+theorem find?_of_nodup_keys (H : Hist) (kv : String × List MVal) (hkv : kv ∈ H) (hnd : (H.map Prod.fst).Nodup) :
+    H.find? (fun e => e.1 == kv.1) = some kv := by
+  induction H with
+  | nil => simp at hkv
+  | cons e t ih =>
+    simp only [List.map_cons, List.nodup_cons] at hnd
+    rcases List.mem_cons.mp hkv with h | h
+    · subst h; simp
+    · have hne : ¬ e.1 = kv.1 := by
+        intro e'
+        exact hnd.1 (List.mem_map.mpr ⟨kv, h, e'.symm⟩)
+      have : (e.1 == kv.1) = false := by simpa using hne
+      simp only [List.find?_cons, this]
+      exact ih h hnd.2
+
+/-- **One entry per epoch for every key.**  When the epoch callback's metric names are fixed and no two metric
+    names of an epoch coincide, the returned history has — as soon as there is one epoch — exactly the keys
+    `loss`, `accuracy` (if enabled), the callback metrics, and their `val_` counterparts iff a validation loader
+    was given, in this order, and the list under each of them has exactly `epochs` entries. -/
+theorem history_one_entry_per_epoch {ev : Option EvCfg} {hasVal : Bool} {ds : List EpochData} {st : EvState} {H : Hist}
+    (names : List String) (hn : match ev with | none => True | some cfg => CbNames cfg.epochCb names)
+    (hnd : (epochKeys ev names hasVal).Nodup)
+    (hfit : fitHist ev hasVal EvState.empty ds = some (st, H)) :
+    (∀ k ∈ epochKeys ev names hasVal, (histGet H k).length = ds.length) ∧
+    H.map Prod.fst = (if ds = [] then [] else epochKeys ev names hasVal) ∧
+    (∀ kv ∈ H, kv.2.length = ds.length) := by
+  obtain ⟨_, h2, h3, _⟩ := fitV_spec ev hasVal ds [] H st hfit
+  have hkeys : ∀ d, (epochSpec ev hasVal d).map Prod.fst = epochKeys ev names hasVal :=
+    fun d => epochSpec_keys ev names hasVal d hn
+  have hlen : ∀ k ∈ epochKeys ev names hasVal, (histGet H k).length = ds.length := by
+    intro k hk
+    rw [h2 k]
+    simp only [histGet, List.find?_nil, List.nil_append]
+    have : ∀ l : List EpochData, (l.flatMap (fun d => valuesNamed k (epochSpec ev hasVal d))).length = l.length := by
+      intro l
+      induction l with
+      | nil => rfl
+      | cons d l ih =>
+        rw [List.flatMap_cons, List.length_append, ih,
+          valuesNamed_length_of_nodup _ k (by rw [hkeys d]; exact hnd) (by rw [hkeys d]; exact hk)]
+        simp; omega
+    exact this ds
+  have hkeysH : H.map Prod.fst = (if ds = [] then [] else epochKeys ev names hasVal) := by
+    rw [h3]
+    simp only [hkeys, List.map_nil]
+    have := foldl_addKeys_const (epochKeys ev names hasVal) hnd (ds.map (fun _ => ()))
+    rw [List.foldl_map] at this
+    rw [this]
+    cases ds <;> simp
+  refine ⟨hlen, hkeysH, ?_⟩
+  intro kv hkv
+  have hmem : kv.1 ∈ H.map Prod.fst := List.mem_map.mpr ⟨kv, hkv, rfl⟩
+  by_cases hds : ds = []
+  · simp [hkeysH, hds] at hmem
+  · have hndH : (H.map Prod.fst).Nodup := by rw [hkeysH]; simpa [hds] using hnd
+    rw [hkeysH] at hmem
+    simp only [hds, ↓reduceIte] at hmem
+    have hget : histGet H kv.1 = kv.2 := by
+      unfold histGet
+      have : H.find? (fun e => e.1 == kv.1) = some kv := find?_of_nodup_keys H kv hkv hndH
+      rw [this]
+    rw [← hget]
+    exact hlen kv.1 hmem
+
+/-- `Trainer.test` returns one output row and one label per sample of the loader, in loader order -/
+theorem test_returns_all_samples (batches : List (List Sample)) :
+    (testReturn batches).1 = batches.flatten.map (·.score) ∧ (testReturn batches).2 = batches.flatten.map (·.label) ∧
+    (testReturn batches).1.length = (batches.map List.length).sum ∧ (testReturn batches).2.length = (batches.map List.length).sum := by
+  simp [testReturn, List.length_flatten, Function.comp_def]
+
+/-! ### Non-vacuity: concrete evaluators and histories -/
+section Examples
+
+def cfgMC : EvCfg := { accuracy := true, mode := .multiClass, scale := 1, epochCb := none, stepCb := none }
+def cfgBin : EvCfg :=
+  { accuracy := true, mode := .binary, scale := 4, epochCb := some (fun yt _ => [("n", .cb yt.length true)]), stepCb := none }
+
+/-- step, step, compute, compute : 3 of 5 correct (ties go to the first index), then empty, then `0/0` -/
+example : (evSteps cfgMC none EvState.empty
+      [[⟨[1], [1, 5, 5]⟩, ⟨[0], [3, 3, 3]⟩], [⟨[2], [0, 1, 9]⟩, ⟨[2], [7, 1, 7]⟩, ⟨[1], [9, 1, 0]⟩]]).map
+      (fun st => (evCompute cfgMC st (some "val"), evCompute cfgMC (evCompute cfgMC st none).1 none))
+    = some ((EvState.empty, [("val_accuracy", .frac 3 5)]), (EvState.empty, [("accuracy", .frac 0 0)])) := by decide
+
+/-- binary: 3/4 is above one half, 2/4 is not -/
+example : (evStep cfgBin EvState.empty none [⟨[1], [3]⟩, ⟨[1], [2]⟩]).map (·.1) = some ⟨[1, 1], [1, 0]⟩ := by decide
+
+/-- a batch of one sample is rejected -/
+example : evStep cfgMC EvState.empty none [⟨[1], [1, 5]⟩] = none := by decide
+
+/-- two epochs, two training batches of different sizes and one validation batch each, callback metric `n` -/
+example : (fitHist (some cfgBin) true EvState.empty
+      [⟨[⟨3/8, [⟨[1], [3]⟩, ⟨[0], [3]⟩]⟩, ⟨1/8, [⟨[1], [3]⟩, ⟨[0], [1]⟩, ⟨[0], [2]⟩]⟩], [⟨1/2, [⟨[1], [1]⟩, ⟨[0], [1]⟩]⟩]⟩,
+       ⟨[⟨1, [⟨[1], [3]⟩, ⟨[0], [0]⟩]⟩, ⟨0, [⟨[1], [3]⟩, ⟨[0], [1]⟩, ⟨[0], [2]⟩]⟩], [⟨1/3, [⟨[1], [3]⟩, ⟨[0], [1]⟩]⟩]⟩]).map (·.2)
+    = some [("loss", [.num (1/4), .num (1/2)]), ("accuracy", [.frac 4 5, .frac 5 5]), ("n", [.cb 5 true, .cb 5 true]),
+            ("val_loss", [.num (1/2), .num (1/3)]), ("val_accuracy", [.frac 1 2, .frac 2 2]), ("val_n", [.cb 2 true, .cb 2 true])] := by
+  decide +kernel
+
+/-- the hypotheses of the history theorems hold for that configuration -/
+example : (epochKeys (some cfgBin) ["n"] true).Nodup := by decide
+example : CbNames cfgBin.epochCb ["n"] := fun _ _ => rfl
+
+/-- quirk: a callback metric called "loss" lands in the loss list — two entries per epoch -/
+example : (fitHist (some { cfgMC with epochCb := some (fun _ _ => [("loss", .cb 7 true)]) }) false EvState.empty
+      [⟨[⟨1/2, []⟩], []⟩]).map (·.2) = some [("loss", [.num (1/2), .cb 7 true]), ("accuracy", [.frac 0 0])] := by
+  decide +kernel
+
+/-- quirk: what the evaluator had accumulated before `fit` is counted in the first epoch -/
+example : (fitHist (some cfgMC) false ⟨[0, 0, 0], [1, 1, 1]⟩
+      [⟨[⟨0, [⟨[1], [1, 5]⟩, ⟨[0], [3, 3]⟩]⟩], []⟩, ⟨[⟨0, [⟨[1], [1, 5]⟩, ⟨[0], [3, 3]⟩]⟩], []⟩]).map (·.2)
+    = some [("loss", [.num 0, .num 0]), ("accuracy", [.frac 2 5, .frac 2 2])] := by
+  decide +kernel
+
+/-- a metric value that is not a float, a loader without batches: `fit` does not return -/
+example : fitHist (some { cfgMC with epochCb := some (fun _ _ => [("m", .cb 7 false)]) }) false EvState.empty
+      [⟨[⟨1/2, []⟩], []⟩] = none := by decide +kernel
+example : fitHist none true EvState.empty [⟨[⟨1/2, []⟩], []⟩] = none := by decide +kernel
+
+end Examples
 
 end Props.C20
